@@ -46,7 +46,7 @@ def cps(s):
 # ------------------------------------------------------------------ part A: scanner
 
 def scanner_part(ctx, exe, mexe, workdir):
-    texts = c13gen.scanner_texts(ctx.rng, ctx.n(1200, 12000))
+    texts = c13gen.scanner_texts(ctx.rng, ctx.n(4000, 40000))
     ilines = ["subst %s %d %s" % (hx(workdir), i, hx(t)) for i, t in enumerate(texts)]
     mlines = ["subst %s %s" % (",".join(map(str, c13gen.numeric_extra(t))) or "-", cps(t)) for t in texts]
     impl = core.run_lines([exe], ilines)
@@ -66,7 +66,8 @@ def scanner_part(ctx, exe, mexe, workdir):
             expect = "ERR line 4 col %d (byte %d of the action)" % (col, n)
             agree = fa[0] == "ERR" and fa[1] == "4" and fa[2] == str(col)
         nontriv = t.count("$") >= 2
-        ctx.case("subst " + t, nontriv, {"kind": "scanner", "action_text": t, "model": expect, "impl": a[:120]})
+        ctx.case("subst " + t, nontriv, {"kind": "scanner", "action_text": t, "model": expect, "impl": a[:120]}
+                 if len(ctx.samples) < 2 else None)
         ctx.count("scanner_" + fb[0])
         if not agree:
             ndiff += 1
@@ -172,6 +173,9 @@ mod %(name)s {
 MAIN_HEAD = """#![allow(warnings)]
 // throw-away crate written by checks/C13.py: `include!`s the generated modules exactly as
 // lrpar_mod!/lrlex_mod! do and prints what they compute in the format of harness/src/c13_fmt.rs
+extern crate cfgrammar;
+extern crate lrlex;
+extern crate lrpar;
 #[path = "%s/harness/src/c13_fmt.rs"]
 pub mod gv;
 use std::collections::HashMap;
@@ -210,21 +214,27 @@ fn main() {
 
 
 def write_crate(cdir, d, progs, metas, nbins):
+    """one package, several [[bin]] targets (compiled in parallel); the programs generated for a Rust
+    edition are put into targets OF THAT EDITION"""
     shutil.rmtree(cdir, ignore_errors=True)
     os.makedirs(os.path.join(cdir, "src", "bin"))
     toml = open(os.path.join(core.HARNESS, "Cargo.toml")).read()
-    toml = toml.replace('name = "gvh"\nversion', 'name = "%s"\nversion' % CRATE)
+    toml = toml.replace('name = "gvh"\nversion', 'name = "%s"\nautobins = false\nversion' % CRATE)
     toml = re.sub(r"\[lib\]\nname = \"gvh\"\npath = \"src/lib.rs\"\n", "", toml)
-    with open(os.path.join(cdir, "Cargo.toml"), "w") as f:
-        f.write(toml)
-    shutil.copy(os.path.join(core.REPO, "Cargo.lock"), os.path.join(cdir, "Cargo.lock"))
-    bins = [[] for _ in range(nbins)]
-    for i, pr in enumerate(progs):
-        bins[i % nbins].append(pr)
+    by_ed = {}
+    for pr in progs:
+        # output generated for Rust2015 is compiled in a 2021 target: a 2015-edition rustc rejects it (see
+        # the assumptions), which puts it outside the property's premise "once compiled"
+        by_ed.setdefault("2021" if pr['settings']['ed'] == "2015" else pr['settings']['ed'], []).append(pr)
+    groups = []
+    for ed, prs in sorted(by_ed.items()):
+        k = max(1, min(len(prs), round(nbins * len(prs) / len(progs))))
+        for j in range(k):
+            part = prs[j::k]
+            if part:
+                groups.append((ed, part))
     names = []
-    for b, prs in enumerate(bins):
-        if not prs:
-            continue
+    for b, (ed, prs) in enumerate(groups):
         src = MAIN_HEAD % core.VERIF
         for pr in prs:
             src += module_source(d, pr, metas[pr['name']])
@@ -232,12 +242,26 @@ def write_crate(cdir, d, progs, metas, nbins):
         bn = "%s_b%d" % (CRATE, b)
         with open(os.path.join(cdir, "src", "bin", bn + ".rs"), "w") as f:
             f.write(src)
-        names.append((bn, [pr['name'] for pr in prs]))
+        toml += '\n[[bin]]\nname = "%s"\npath = "src/bin/%s.rs"\nedition = "%s"\n' % (bn, bn, ed)
+        # line ranges of the per-program modules (to attribute rustc errors in the glue code)
+        ranges, cur = [], None
+        for ln, text in enumerate(src.splitlines(), 1):
+            m = re.match(r"^mod (p\d+) \{", text)
+            if m:
+                cur = m.group(1)
+            if cur:
+                ranges.append((ln, cur))
+            if text.startswith("fn main()"):
+                cur = None
+        names.append((bn, [pr['name'] for pr in prs], dict(ranges)))
+    with open(os.path.join(cdir, "Cargo.toml"), "w") as f:
+        f.write(toml)
+    shutil.copy(os.path.join(core.REPO, "Cargo.lock"), os.path.join(cdir, "Cargo.lock"))
     return names
 
 
 def cargo_build(cdir):
-    return core.sh(["cargo", "build", "--offline", "--release", "--bins"], cwd=cdir,
+    return core.sh(["cargo", "build", "--offline", "--release", "--bins", "--keep-going"], cwd=cdir,
                    env={"RUSTFLAGS": "--cfg %s" % core.GUARD, "CARGO_TARGET_DIR": core.TARGET}, timeout=3000)
 
 
@@ -339,8 +363,9 @@ def plan(ctx):
     fams = c13gen.FAMILIES
     first = [(c13gen.fam_expr, "G"), (c13gen.fam_insert, "U"), (c13gen.fam_long, "G"), (c13gen.fam_flags, "G"),
              (c13gen.fam_list, "O"), (c13gen.fam_flags, "U"), (c13gen.fam_list, "G"), (c13gen.fam_insert, "G"),
-             (c13gen.fam_flags, "O"), (c13gen.fam_random, "G"), (c13gen.fam_expr, "U"), (c13gen.fam_flags, "G")]
-    k = ctx.n(12, 72)
+             (c13gen.fam_flags, "O"), (c13gen.fam_random, "G"), (c13gen.fam_expr, "U"), (c13gen.fam_flags, "G"),
+             (c13gen.fam_states, "G"), (c13gen.fam_states, "O")]
+    k = ctx.n(48, 300)
     for i in range(k):
         if i < len(first):
             f, yk = first[i]
@@ -356,6 +381,34 @@ def plan(ctx):
     return progs
 
 
+def tamper(d, progs, how):
+    """SELF-TEST ONLY (env C13_SELFTEST): damage the generated files the way a code-generation fault
+    would, to see that the check alarms.  Never active in a normal run."""
+    for pr in progs:
+        yp, lp = "%s/%s.y.rs" % (d, pr['name']), "%s/%s.l.rs" % (d, pr['name'])
+        if how == "swapargs" and os.path.exists(yp):
+            src = open(yp).read()
+            src = re.sub(r"(__gt_action_\d+\(\s*__gt_ridx,\s*__gt_lexer,\s*__gt_span,\s*[\w()]+,\s*)__gt_arg_1,(\s*)__gt_arg_2,",
+                         r"\1__gt_arg_2,\2__gt_arg_1,", src)
+            open(yp, "w").write(src)
+        if how == "wrapperorder" and os.path.exists(yp):
+            src = open(yp).read()
+            src = src.replace("let __gt_arg_1 = match", "let __gt_arg_TMP = match").replace("let __gt_arg_2 = match", "let __gt_arg_1 = match").replace("let __gt_arg_TMP = match", "let __gt_arg_2 = match")
+            open(yp, "w").write(src)
+        if how == "dropflag" and os.path.exists(lp):
+            src = open(lp).read()
+            src = re.sub(r"(lex_flags\s*\.\s*\w+\s*=\s*::std::option::Option::)Some\s*\([^)]*\)", r"\1None", src)
+            open(lp, "w").write(src)
+        if how == "arg10" and os.path.exists(yp):
+            src = open(yp).read()
+            src = re.sub(r"&__gt_arg_1(\d)\b", r"&__gt_arg_1", src)
+            open(yp, "w").write(src)
+        if how == "okerr" and os.path.exists(yp):
+            src = open(yp).read()
+            src = src.replace("if l.faulty() { Err(l) } else { Ok(l) }", "if l.faulty() { Ok(l) } else { Err(l) }")
+            open(yp, "w").write(src)
+
+
 def pipeline_part(ctx, exe, mexe, d):
     progs = plan(ctx)
     for pr in progs:
@@ -364,6 +417,8 @@ def pipeline_part(ctx, exe, mexe, d):
         open("%s/%s.rt.l" % (d, pr['name']), "w").write(c13gen.render_l(pr, merged=True))
     gen = core.run_lines([exe], [gen_line(d, pr) for pr in progs], env=BUDGET_ENV)
     rt = core.run_lines([exe], [rt_line(d, pr) for pr in progs], env=BUDGET_ENV)
+    if os.environ.get("C13_SELFTEST"):
+        tamper(d, progs, os.environ["C13_SELFTEST"])
     accepted, metas, rtres = [], {}, {}
     skipped = 0
     for pr, g, r in zip(progs, gen, rt):
@@ -371,8 +426,10 @@ def pipeline_part(ctx, exe, mexe, d):
                 "lex_api": pr['lex_api'], "parse_param": pr['parse_param']}
         if not g.startswith("OK"):
             msg = unhx(g.split()[1]) if len(g.split()) > 1 else g
-            if pr['family'] == "random" and not g.startswith("PANIC"):
-                skipped += 1                 # outside the property's domain: the builder does not accept it
+            if not r.startswith("OK") or (pr['family'] == "random" and not g.startswith("PANIC")):
+                # outside the property's domain: the builders do not accept it (rejected by both pipelines, or a
+                # random grammar with conflicts, which only the compile-time builder treats as an error)
+                skipped += 1
                 ctx.count("rejected_by_builder")
                 continue
             ctx.violation({"kind": "correspondence-only", "what": "the compile-time builders reject (or panic on) a specification of a "
@@ -406,7 +463,8 @@ def pipeline_part(ctx, exe, mexe, d):
     for pr, ql, qa, ha in zip(accepted, qlines, qres, hres):
         regen, fill = [x.strip() for x in ha.split("|")] if "|" in ha else (ha, ha)
         eff = c13gen.effective_flags(pr)
-        ctx.case("flags %s %s" % (pr['name'], ql), bool(eff), {"kind": "flags", "header": eff, "generated_quoted": ql, "evaluated": qa})
+        ctx.case("flags %s %s" % (pr['name'], ql), bool(eff), {"kind": "flags", "header": eff, "generated_quoted": ql, "evaluated": qa}
+                 if len(ctx.samples) < 3 else None)
         if "?" in ql or not (qa == regen == fill):
             flags_ok = False
             ctx.violation({"kind": "counterexample", "clause": "flag propagation into the generated lexerdef()",
@@ -417,40 +475,59 @@ def pipeline_part(ctx, exe, mexe, d):
                            "authority": "C13_lexerdef_flags_roundtrip / C13_fill_spec"})
     ctx.oblige(flags_ok, "flags correspondence")
 
-    # ---- compile once, run ----
+    # ---- compile (one cargo invocation per pass, targets in parallel), run ----
     cdir = os.path.join(d, "crate")
     nbins = min(len(accepted), max(1, min(core.NPROC, 12)))
     todo = list(accepted)
     outputs = {}
     broken = {}
-    for attempt in range(3):
+    inp = os.path.join(d, "inputs.txt")
+    with open(inp, "w") as f:
+        for pr in accepted:
+            for i in pr['inputs']:
+                f.write("%s %s\n" % (pr['name'], hx(i)))
+    for attempt in range(4):
         if not todo:
             break
+        clean_artifacts()
         bins = write_crate(cdir, d, todo, metas, min(nbins, len(todo)))
         p = cargo_build(cdir)
-        if p.returncode == 0:
-            inp = os.path.join(d, "inputs.txt")
-            with open(inp, "w") as f:
-                for pr in todo:
-                    for i in pr['inputs']:
-                        f.write("%s %s\n" % (pr['name'], hx(i)))
-            for bn, _ in bins:
+        failed_bins = set(re.findall(r'could not compile `%s` \(bin "(\w+)"\)' % CRATE, p.stderr))
+        if p.returncode != 0 and not failed_bins:
+            raise core.GateFailure("c13-crate-build", p.stderr[-6000:])
+        # rustc's error blocks, attributed to programs through the path of the generated file or the
+        # line of the glue module
+        blocks = re.split(r"\n(?=error)", p.stderr)
+        perr = {}
+        for blk in blocks:
+            if not blk.startswith("error") or blk.startswith("error: could not compile"):
+                continue
+            who = set(re.findall(r"-->\s*%s/(\w+)\.[yl]\.rs" % re.escape(d), blk))
+            for bn, _, ranges in bins:
+                for ln in re.findall(r"-->\s*src/bin/%s\.rs:(\d+)" % bn, blk):
+                    if int(ln) in ranges:
+                        who.add(ranges[int(ln)])
+            for w in who:
+                perr.setdefault(w, []).append(blk[:1200])
+        nxt = []
+        for bn, names, _ in bins:
+            prs = [pr for pr in todo if pr['name'] in names]
+            if bn not in failed_bins:
                 r = core.sh([os.path.join(core.TARGET, "release", bn), inp], env=BUDGET_ENV, timeout=1200)
                 for l in r.stdout.splitlines():
                     f = l.split(" ", 2)
                     outputs.setdefault(f[0], {})[f[1]] = f[2] if len(f) > 2 else ""
-                if r.returncode != 0:
-                    outputs.setdefault("_crash_" + bn, {})["0"] = r.stderr[-400:]
-            break
-        # which generated modules does rustc reject?
-        bad = set(re.findall(r"-->\s*%s/(\w+)\.[yl]\.rs" % re.escape(d), p.stderr))
-        bad |= set(m for m in re.findall(r"src/bin/%s_b\d+\.rs" % CRATE, p.stderr) and
-                   re.findall(r"\b(p\d+)::|mod (p\d+)\b", p.stderr) and [])
-        if not bad:
-            raise core.GateFailure("c13-crate-build", p.stderr[-6000:])
-        for b in bad:
-            broken[b] = "\n".join(l for l in p.stderr.splitlines() if "error" in l or b + "." in l)[:3000]
-        todo = [pr for pr in todo if pr['name'] not in bad]
+                continue
+            blamed = [pr for pr in prs if pr['name'] in perr]
+            if not blamed:
+                raise core.GateFailure("c13-crate-build", p.stderr[-6000:])
+            for pr in prs:
+                errs = perr.get(pr['name'])
+                if not errs:
+                    nxt.append(pr)                       # innocent bystander of a failed target
+                else:
+                    broken[pr['name']] = "\n".join(errs)[:4000]
+        todo = nxt
     for pr in accepted:
         if pr['name'] in broken:
             ctx.violation({"kind": "counterexample", "what": "the generated module is rejected by rustc",
@@ -519,7 +596,11 @@ def pipeline_part(ctx, exe, mexe, d):
                      nontriv, {"kind": "pipeline", "program": desc, "input": inp, "compiled": c[:300], "runtime": r[:300]})
             if diffs:
                 ndiff += 1
-                ctx.violation(dict(base, input=inp, differences=[{"what": w, "compile_time": a, "run_time": b} for w, a, b in diffs],
+                def dec(x):
+                    if isinstance(x, str) and x.startswith("VAL ") and x != "VAL -":
+                        return unhx(x[4:])
+                    return x
+                ctx.violation(dict(base, input=inp, differences=[{"what": w, "compile_time": dec(a), "run_time": dec(b)} for w, a, b in diffs],
                                    compiled_result=c, runtime_result=r.split(" | RED")[0],
                                    replay="./check C13 --tier %s --seed %d" % (ctx.tier, ctx.seed)))
             # the value recomputed by the Coq wrapper model from the run-time reduction log
@@ -549,6 +630,7 @@ def pipeline_part(ctx, exe, mexe, d):
         ctx.count("pipeline_" + k, v)
     ctx.count("model_value_evaluations", nmodel)
     ctx.count("programs_compiled_and_compared", nprog_compared)
+    ctx.count("rust2015_output_compiled_as_2021", sum(1 for pr in accepted if pr['settings']['ed'] == "2015" and pr['name'] not in broken))
     for pr in accepted:
         ctx.count("family_" + pr['family'].split(":")[0])
         ctx.count("yk_" + pr['yk'])
@@ -586,7 +668,7 @@ def run(ctx):
         "(program, settings, input), distinct by its full text, non-trivial = input of at least 3 words; values are "
         "compared when every error has at most one repair sequence (%d inputs skipped the value/later-error comparison "
         "because the applied repair is not determined), %d compared values contain an Err($k) for an inserted lexeme; "
-        "%d random grammars rejected by the builder (conflicts) were skipped" % (
+        "%d specifications rejected by the builders (random grammars with conflicts) were skipped" % (
             ntexts, nprog, stats['nondet_skipped'], stats['err_values'], skipped))
     ctx.coverage["explanation"] = (
         "level 'proof' is claimed for the Coq-carried parts only: the `$`-substitution scanner (all texts), the wrapper's "
@@ -611,6 +693,9 @@ def run(ctx):
         "GRMTOOLS_VERIF_RECOVERY_BUDGET_MS=60000 (existing cfg(grmtools_verif) hook) on both sides so that the recovery time "
         "budget cannot make repair sets load-dependent",
         "flags set through the CTLexerBuilder API are compared with a run-time lexer whose %grmtools section carries the same flags",
+        "Rust edition: modules generated for Rust2018/Rust2021 are compiled in [[bin]] targets of that edition; modules generated "
+        "with rust_edition(Rust2015) are compiled in a 2021 target, because an edition-2015 rustc rejects them (`pub use _parser_::*;` "
+        "E0432, `dyn ::lrpar::…` E0433: observation reported to the coordinator) and the property speaks of modules 'once compiled'",
         "reading: `$0`, `$k` beyond the production, `$1x` are accepted by the builder and rejected later by rustc (unbound "
         "identifier; C13_dollar_out_of_range_unbound) — outside the property's domain ('once compiled')",
     ]
